@@ -83,6 +83,20 @@ func goldPoint(p c13ref.EPoint) *goldilocks.Point {
 	return P
 }
 
+// goldDecoded builds the point through the decoder (RFC 8032 encoding: y in
+// 56 octets little endian, the parity of x in the top bit of octet 57): the
+// quantifier of the property includes points "decoded from arbitrary valid
+// encodings", whose internal coordinates are filled in by another code path
+// than FromAffine's.
+func goldDecoded(p c13ref.EPoint) *goldilocks.Point {
+	enc := append(c13ref.LE(p.Y.A, 56), byte(p.X.A.Bit(0))<<7)
+	P, err := goldilocks.FromBytes(enc)
+	if err != nil {
+		return nil
+	}
+	return P
+}
+
 func goldScalar(k *big.Int) *goldilocks.Scalar {
 	var s goldilocks.Scalar
 	copy(s[:], c13ref.LE(k, goldilocks.ScalarSize))
@@ -123,7 +137,8 @@ func TestVerifGoldilocks(t *testing.T) {
 	lib.Mandatory("goldilocks.Add", "goldilocks.Add:Q=P", "goldilocks.Add:Q=-P", "goldilocks.Add:Q=O", "goldilocks.Add:P=O", "goldilocks.Add:projective-input",
 		"goldilocks.Double", "goldilocks.Double:O", "goldilocks.ScalarMult", "goldilocks.ScalarMult:k>=N", "goldilocks.ScalarMult:P=O", "goldilocks.ScalarMult:result=O",
 		"goldilocks.ScalarBaseMult", "goldilocks.CombinedMult", "goldilocks.cm:mG=nQ", "goldilocks.cm:mG=-nQ", "goldilocks.cm:Q=G,m=n", "goldilocks.cm:unreduced",
-		"goldilocks.cm:Q=O", "goldilocks.cm:m=0", "goldilocks.cm:n=0", "goldilocks.IsOnCurve:false")
+		"goldilocks.cm:Q=O", "goldilocks.cm:m=0", "goldilocks.cm:n=0", "goldilocks.IsOnCurve:false",
+		"goldilocks.Add:decoded-input", "goldilocks.cm:m-and-n-one-object")
 	c := c13ref.Ed448()
 	N := c.N
 	cv := goldilocks.Curve{}
@@ -147,6 +162,13 @@ func TestVerifGoldilocks(t *testing.T) {
 		r := lib.NewRng("c13/gold/add", i)
 		p, q, rel := relatedE(c, pool, r)
 		P, Q := goldPoint(p.P), goldPoint(q.P)
+		if i%3 == 1 {
+			P = goldDecoded(p.P)
+			lib.Count("goldilocks.Add:decoded-input")
+		}
+		if i%4 == 1 || i%4 == 2 {
+			Q = goldDecoded(q.P)
+		}
 		if P == nil || Q == nil {
 			lib.Violation("C13:wrong-result:goldilocks.IsOnCurve", monGold, lib.D("P", estr(p.P), "Q", estr(q.P), "what", "FromAffine refused a curve point"))
 			return
@@ -158,7 +180,7 @@ func TestVerifGoldilocks(t *testing.T) {
 		}
 		// optionally replace P by a projective representative of the same
 		// point: (P - T) + T computed by the library and validated first
-		if r.Intn(3) == 0 {
+		if r.Intn(3) == 0 && i%3 != 1 {
 			tt := pool[r.Intn(len(pool))]
 			d0 := c.MustAdd(p.P, c.Neg(tt.P))
 			D0, T := goldPoint(d0), goldPoint(tt.P)
@@ -237,6 +259,12 @@ func TestVerifGoldilocks(t *testing.T) {
 		p := pool[r.Intn(len(pool))]
 		k, kclass := c13ref.GenScalar(r, N, goldilocks.ScalarSize)
 		P := goldPoint(p.P)
+		if i%2 == 1 {
+			if P = goldDecoded(p.P); P == nil {
+				lib.Violation("C13:wrong-result:goldilocks.IsOnCurve", monGold, lib.D("P", estr(p.P), "what", "FromBytes refused the encoding of a curve point"))
+				return
+			}
+		}
 		want := c.Mul(k, p.P)
 		lib.Case([]byte("goldilocks.ScalarMult"), p.P.Bytes(), k.Bytes())
 		lib.Count("goldilocks.ScalarMult")
@@ -258,8 +286,9 @@ func TestVerifGoldilocks(t *testing.T) {
 			lib.Violation("C13:panic:goldilocks.ScalarMult", monGold, det)
 		} else {
 			goldCheck(c, "ScalarMult", kclass, want, R, det)
-			if *ks != *goldScalar(k) {
-				lib.Note("goldilocks.ScalarMult modified its scalar argument")
+			// the same scalar and point objects once more: k*P is still k*P
+			if pn := lib.Try("goldilocks.ScalarMult", ks[:], func() { R = cv.ScalarMult(ks, P) }); pn == nil {
+				goldCheck(c, "ScalarMult", "same-objects-again", want, R, det)
 			}
 		}
 		lib.Case([]byte("goldilocks.ScalarBaseMult"), k.Bytes())
@@ -375,6 +404,15 @@ func TestVerifGoldilocks(t *testing.T) {
 		det := lib.D("Q", estr(q.P), "dlogQ", hexInt(q.K), "m", mm.Text(16), "n", nn.Text(16), "class", cl)
 		var R *goldilocks.Point
 		ms, ns := goldScalar(mm), goldScalar(nn)
+		if mm.Cmp(nn) == 0 && i%2 == 0 {
+			ns = ms // m = n through one variable
+			lib.Count("goldilocks.cm:m-and-n-one-object")
+		}
+		if i%3 == 2 {
+			if Q = goldDecoded(q.P); Q == nil {
+				return
+			}
+		}
 		if pn := lib.Try("goldilocks.CombinedMult", append(ms[:], ns[:]...), func() { R = cv.CombinedMult(ms, ns, Q) }); pn != nil {
 			det["panic"] = pn.Value
 			lib.Violation("C13:panic:goldilocks.CombinedMult", monGold, det)
@@ -384,7 +422,14 @@ func TestVerifGoldilocks(t *testing.T) {
 		if q.K == nil {
 			vc = "unrelated-Q"
 		}
-		goldCheck(c, "CombinedMult", vc, want, R, det)
+		if !goldCheck(c, "CombinedMult", vc, want, R, det) {
+			return
+		}
+		// the same scalar and point objects once more: mG + nQ is still mG + nQ
+		if pn := lib.Try("goldilocks.CombinedMult", append(ms[:], ns[:]...), func() { R = cv.CombinedMult(ms, ns, Q) }); pn == nil {
+			det["what"] = "second call with the same scalar objects"
+			goldCheck(c, "CombinedMult", "same-objects-again", want, R, det)
+		}
 	})
 }
 
